@@ -27,7 +27,7 @@ MC_SC == { [kind |-> "int", re |-> 2, im |-> 0], [kind |-> "float", re |-> -3, i
            [kind |-> "complex", re |-> 1, im |-> 2],
            [kind |-> "intbig", re |-> 16777217, im |-> 0], [kind |-> "tiny", re |-> 3, im |-> 0] }
 MC_OPS == {"add", "sub", "mul", "neg", "pos", "full", "t", "matvec", "vecmat", "matmat", "matdense",
-           "add_s", "radd_s", "sub_s", "rsub_s", "mul_s", "rmul_s", "div_s", "kron", "ones", "zeros"}
+           "add_s", "radd_s", "sub_s", "rsub_s", "mul_s", "rmul_s", "div_s", "kron", "ones", "zeros", "eye"}
 MC_BATCH == {<<>>, <<2>>, <<2, 3>>, <<2, 1, 3>>}
 MC_ITEMS(n, d) == {}
 MC_WIDTHS == {}
